@@ -91,19 +91,23 @@ ExpandFlags(b, p, need, acc) ==
 \*   not short, mb set:   the coordinate is the same as the previous one (no bytes)
 \*   not short, mb clear: signed 16-bit delta
 \* Coordinates are relative to the previous point; the first one is relative to (0,0).
+\* (the values are collected in chunks of 256 so that glyphs with 65536 points stay cheap for TLC)
 DecodeCoords(b, start, flags, sb, mb) ==
-  FoldLeft(LAMBDA a, f :
-      IF ~a.ok THEN a
-      ELSE IF Bit(f, sb)
-        THEN IF a.next >= Len(b) THEN [a EXCEPT !.ok = FALSE]
-             ELSE LET d == b[a.next + 1]
-                      v == IF Bit(f, mb) THEN a.cur + d ELSE a.cur - d
-                  IN [ok |-> IsInt16(v), next |-> a.next + 1, cur |-> v, vals |-> Append(a.vals, v)]
-        ELSE IF Bit(f, mb) THEN [a EXCEPT !.vals = Append(a.vals, a.cur)]
-        ELSE IF a.next + 1 >= Len(b) THEN [a EXCEPT !.ok = FALSE]
-             ELSE LET v == a.cur + RdI16(b, a.next)
-                  IN [ok |-> IsInt16(v), next |-> a.next + 2, cur |-> v, vals |-> Append(a.vals, v)],
-    [ok |-> TRUE, next |-> start, cur |-> 0, vals |-> <<>>], flags)
+  LET Push(a, v, nx) ==
+        IF Len(a.chunk) >= 255
+          THEN [ok |-> IsInt16(v), next |-> nx, cur |-> v, chunk |-> <<>>, done |-> a.done \o Append(a.chunk, v)]
+          ELSE [ok |-> IsInt16(v), next |-> nx, cur |-> v, chunk |-> Append(a.chunk, v), done |-> a.done]
+      r == FoldLeft(LAMBDA a, f :
+             IF ~a.ok THEN a
+             ELSE IF Bit(f, sb)
+               THEN IF a.next >= Len(b) THEN [a EXCEPT !.ok = FALSE]
+                    ELSE LET d == b[a.next + 1]
+                         IN Push(a, IF Bit(f, mb) THEN a.cur + d ELSE a.cur - d, a.next + 1)
+               ELSE IF Bit(f, mb) THEN Push(a, a.cur, a.next)
+               ELSE IF a.next + 1 >= Len(b) THEN [a EXCEPT !.ok = FALSE]
+                    ELSE Push(a, a.cur + RdI16(b, a.next), a.next + 2),
+             [ok |-> TRUE, next |-> start, cur |-> 0, chunk |-> <<>>, done |-> <<>>], flags)
+  IN [ok |-> r.ok, next |-> r.next, cur |-> r.cur, vals |-> r.done \o r.chunk]
 
 \* points of contour c are points endPts[c-1]+1 .. endPts[c] (0-based point numbers)
 Contours(ends, pts) ==
